@@ -1,5 +1,6 @@
 """C16 — key-path syntax parses to its meaning, prints back faithfully and never panics (structural clauses)."""
 import report
+from rules import textparser
 from rules import parsers, safety
 
 ROOTS = ['keypath::parse_key_paths']
@@ -25,4 +26,5 @@ def check(ctx, run):
     parsers.r16_4(ctx, run)
     parsers.r09_4(ctx, run, 'R16.5', ROOTS)
     parsers.r_widths(ctx, run, 'R16.6')
+    textparser.r02_12(ctx, run, rule='R16.6/R02.12')
     return report.finish(run, level='other', explanation=EXPLANATION, assumptions=["nom 7 contracts as for C09", "A3"])
